@@ -27,6 +27,16 @@ import sqlparse
 from sqlparse.exceptions import SQLParseError
 
 
+def _boolean(value):
+    """argparse type of the options that take True or False."""
+    if value.lower() in ('true', '1', 'yes', 'on'):
+        return True
+    if value.lower() in ('false', '0', 'no', 'off'):
+        return False
+    raise argparse.ArgumentTypeError(
+        'expected True or False, got {!r}'.format(value))
+
+
 # TODO: Add CLI Tests
 # TODO: Simplify formatter by using argparse `type` arguments
 def create_parser():
@@ -136,14 +146,14 @@ def create_parser():
         '--comma_first',
         dest='comma_first',
         default=False,
-        type=bool,
+        type=_boolean,
         help='Insert linebreak before comma (default False)')
 
     group.add_argument(
         '--compact',
         dest='compact',
         default=False,
-        type=bool,
+        type=_boolean,
         help='Try to produce more compact output (default False)')
 
     group.add_argument(
